@@ -15,7 +15,7 @@ R-C05.1  "each operand once, in order, short-circuit operands behind their test"
 R-C05.2  ordering mechanism in place: the side-effect list names results, panic, exit,
          state-result, qubit alloc/free/measure-free; calls count as side effects; every
          compile_inner runs inside track_hugr_side_effects; the tracker itself is interpreted (c05_tracker.py): its `with`
-         body builds 259 model HUGRs through the patched Hugr.add_node -- in every dataflow parent the order links are exactly
+         body builds 900 model HUGRs (sequences over nine kinds of item, nested containers included) through the patched Hugr.add_node -- in every dataflow parent the order links are exactly
          Input -> e1 -> ... -> en -> Output over the children that have or contain a side effect, containers are marked in
          their parents, nothing is linked inside a Conditional, and add_node is restored on normal exit and on exception.
 R-C05.3  short-circuit forms never reach the expression compiler (the synthesiser's handlers
